@@ -400,6 +400,12 @@ def dag_item(res, item):
         all_runs(res, make_rep(n, deps, rnd, v), rnd)
 
 
+def sample_item(res, item):
+    n, deps, variant, seed = item
+    rnd = random.Random(seed)
+    all_runs(res, make_rep(n, deps, rnd, variant), rnd, max_runs=20)
+
+
 def run(res, tier, seed):
     import gc
     gc.collect()
@@ -440,15 +446,19 @@ def run(res, tier, seed):
                 break
             rnd = random.Random(k * 977 + 1)
             all_runs(res, make_rep(5, deps, rnd, k % 3), rnd, max_runs=24)
-    # seeded sampling beyond the exhaustive bound
-    count = 0
-    lim = 40 if quick else 3000
-    while count < lim and not res.expired() and (time.time() - res.t0) < res.budget_s * 0.92:
+    # seeded sampling beyond the exhaustive bound (drawn up front from res.rng: same seed, same cases)
+    sample = []
+    for _ in range(40 if quick else 4000):
         n = res.rng.choice([6] if quick else [6, 6, 7])
         deps = [[i for i in range(j) if res.rng.random() < 0.4] for j in range(n)]
-        rnd = random.Random(res.rng.getrandbits(32))
-        all_runs(res, make_rep(n, deps, rnd, res.rng.choice([0, 1, 2, 2])), rnd, max_runs=20)
-        count += 1
+        sample.append((n, deps, res.rng.choice([0, 1, 2, 2]), res.rng.getrandbits(32)))
+    if quick:
+        for it in sample:
+            if res.expired():
+                break
+            sample_item(res, it)
+    else:
+        run_parallel(res, sample_item, sample, chunk=16, reserve=0.05)
     res.exhaustive = bool(ok)
     res.notes.append("precondition (docs): no calculated value is held when generate_actions is called; step_size >= 1")
     res.notes.append("not counted as a calculated value: an ItemSpace object created while tracing (its cells' values "
